@@ -584,6 +584,31 @@ class HGen(PartGenerator):
         return top
 
 
+class HSetupProc(HProc):
+    """A user's machine type in the style of the shipped examples: it overrides a device hook so that a set-up time
+    passes between receiving a part and starting to process it."""
+
+    def __init__(self, *a, setup_time=0.5, **k):
+        self.h_setup_time = setup_time
+        self.h_setup_done = False
+        super().__init__(*a, **k)
+
+    def _try_move_part_to_output(self):
+        if not self.is_operational() or self._part is None or self._output is not None:
+            return
+        if not self.h_setup_done:
+            from simprocesd.model.simulation import EventType
+            self._env.schedule_event(self._env.now + self.h_setup_time, self.id, self.h_finish_setup,
+                                     EventType.OTHER_HIGH_PRIORITY, f'setup of {self.name}')
+            return
+        self.h_setup_done = False
+        super()._try_move_part_to_output()
+
+    def h_finish_setup(self):
+        self.h_setup_done = True
+        self._try_move_part_to_output()
+
+
 def classes():
     return {'HProc': HProc, 'HGen': HGen}
 
@@ -652,8 +677,12 @@ def build(spec, bus=None, script=True, system=None, known=None):
         elif k == 'handler':
             d = PartHandler(name=nm, upstream=ups, cycle_time=it['ct'], value=it.get('value', 0))
         elif k == 'processor':
-            d = cls['HProc'](nm, ups, it['ct'], dict(it['res']) if it.get('res') else None,
-                             it.get('wo'), log, i, it.get('wo_cost_step', 0))
+            if it.get('setup'):
+                d = HSetupProc(nm, ups, it['ct'], dict(it['res']) if it.get('res') else None,
+                               it.get('wo'), log, i, it.get('wo_cost_step', 0), setup_time=it['setup'])
+            else:
+                d = cls['HProc'](nm, ups, it['ct'], dict(it['res']) if it.get('res') else None,
+                                 it.get('wo'), log, i, it.get('wo_cost_step', 0))
             if it.get('ct_script'):
                 d.add_receive_part_callback(CtScript(it['ct_script']))
             if it.get('value_add') or it.get('quality_mul') is not None:
